@@ -214,8 +214,14 @@ def apply_tags(kind, obj, rng, sizeclass):
             t["WM/Flag"] = [ASFBoolAttribute(rng.random() < 0.5)]
         elif r < 0.9:
             t["WM/Picture"] = [ASFByteArrayAttribute(blob(rng, sizeclass))]
-        else:
+        elif r < 0.95:
             t["WM/Lang"] = [ASFUnicodeAttribute(text(rng, "tiny"), language=1, stream=rng.choice([0, 2]))]
+        else:
+            # the names of the Content Description Object with a stream number / language: they cannot live there
+            # (that object has neither field) and must be stored where the number survives
+            nm = rng.choice(["Title", "Author", "Copyright", "Description", "Rating"])
+            t[nm] = [ASFUnicodeAttribute(text(rng, "tiny"), stream=rng.choice([1, 2, 127])) if rng.random() < 0.6 else
+                     ASFUnicodeAttribute(text(rng, "tiny"), language=rng.choice([0, 1]), stream=rng.choice([0, 3]))]
 
 
 def clear_tags(kind, obj):
